@@ -123,6 +123,61 @@ def readbacks(upload, n):
     return out
 
 
+def interleaved_readback(ups, salt=0):
+    """ups: [(label, upload, content)] - all uploads of ONE request, which share the buffered body.  A handler may read
+    them in interleaved blocks (diffing / zipping two uploads, round-robin streaming): every single operation must
+    answer as it would on a private copy of that upload's content (a BytesIO of the bytes posted).
+    Returns None or a description of the first operation that differs."""
+    import random
+    for u in ups:
+        u[1].file.seek(0)
+
+    def check(refs, i, op, *args):
+        label, up, content = ups[i]
+        try:
+            got = getattr(up.file, op)(*args)
+        except Exception as e:
+            got = 'raised %s' % type(e).__name__
+        want = getattr(refs[i], op)(*args)
+        if got != want:
+            shown = got if not isinstance(got, bytes) else got[:40].hex() + ('...' if len(got) > 40 else '')
+            wshown = want if not isinstance(want, bytes) else want[:40].hex() + ('...' if len(want) > 40 else '')
+            return (f'{len(ups)} uploads of one form read in interleaved blocks: {op}{args} on upload {label} gave {shown} '
+                    f'({len(got) if isinstance(got, bytes) else "-"} bytes), its own content gives {wshown}')
+        return None
+    # round-robin block reads, several block sizes, until every upload is exhausted
+    longest = max(len(c) for _, _, c in ups)
+    for k in sorted({1, 2, 5, max(1, longest // 3), 64}):
+        refs = [io.BytesIO(c) for _, _, c in ups]
+        for i in range(len(ups)):
+            ups[i][1].file.seek(0)
+        for _ in range(longest // k + 2):
+            for i in range(len(ups)):
+                bad = check(refs, i, 'read', k)
+                if bad:
+                    return bad
+    # a random interleaving of partial reads, repositionings and tells
+    rnd = random.Random(salt * 7919 + longest)
+    refs = [io.BytesIO(c) for _, _, c in ups]
+    for i in range(len(ups)):
+        ups[i][1].file.seek(0)
+    for _ in range(12 + 4 * len(ups)):
+        i = rnd.randrange(len(ups))
+        n = len(ups[i][2])
+        r = rnd.random()
+        if r < .6:
+            bad = check(refs, i, 'read', rnd.choice([1, 2, 3, max(1, n // 2), max(1, n - 1), n + 5]))
+        elif r < .8:
+            bad = check(refs, i, 'seek', rnd.randint(0, n))
+        elif r < .9:
+            bad = check(refs, i, 'tell')
+        else:
+            bad = check(refs, i, 'read')
+        if bad:
+            return bad
+    return None
+
+
 def data_zones(boundary, fields):
     """[(start, end)] of every part's data in encode_form(...)"""
     pos, out = 2 + len(boundary.encode('utf8')), []
@@ -155,7 +210,7 @@ class C07(Check):
             'empty/UTF-8 values; binary contents with CR LF dashes and delimiter prefixes; adjacent and trailing backslashes in names and file names) x RFC 2046 boundaries (quoted when '
             'needed) x max_memfile_size around the text budget and the body length (spilling) x Content-Length/chunked x read '
             'schedules x accessor orders; plus unit streams for parse_header, splitlines, UTF-8, boundary extraction, '
-            'BytesIOProxy, iter_items; the oracle reads every upload back by read(), read(-1), read(None), read(k) loops, partial reads, seek/tell, iteration and save(). non-trivial = a name/filename with a separator or non-ASCII character, or a repeated name')
+            'BytesIOProxy (one window; several windows over one shared source with interleaved operations and the cursor of the body moved in between), iter_items; the oracle reads every upload back by read(), read(-1), read(None), read(k) loops, partial reads, seek/tell, iteration and save(), and all uploads of a form in interleaved blocks (round-robin block sizes, random read/seek/tell interleavings). non-trivial = a name/filename with a separator or non-ASCII character, or a repeated name')
     assumptions = ['re (FieldStorage._patt, MULTIPART_BOUNDARY_PATT) behaves as the direct functions pattIter / boundaryOf '
                    '(probed tables in Gen/Forms.lean, checked by decide; exercised by the correspondence)',
                    'str.lower only matters on ASCII letters for the option keys name/filename',
@@ -296,6 +351,60 @@ class C07(Check):
             src.close()
             out.append((f'forms proxy {hb(body)} {1 if spooled else 0} {st} {en} {".".join(ops)}', ','.join(res),
                         dict(kind='proxy', body=body.hex(), st=st, en=en, ops=ops)))
+        # E2. several windows over ONE source, operations interleaved, the cursor of the source moved in between
+        for i in range(n):
+            body = bytes(rng.randrange(256) for _ in range(rng.randint(0, 16)))
+            spooled = rng.random() < .2
+            wins = []
+            for _ in range(rng.choice([2, 2, 3, 4])):
+                if rng.random() < .85:
+                    a = rng.randint(0, len(body))
+                    wins.append((a, rng.randint(a, len(body))))
+                else:
+                    wins.append((rng.randint(-2, len(body) + 2), rng.randint(-2, len(body) + 3)))
+            ops = []
+            for _ in range(rng.randint(2, 9)):
+                k = rng.random()
+                w = rng.randrange(len(wins))
+                if k < .45:
+                    ops.append('%d@r%d' % (w, rng.choice([1, 1, 2, 3, 5, 0, -1])))
+                elif k < .55:
+                    ops.append('%d@r' % w)
+                elif k < .7:
+                    ops.append('%d@s%d/%d' % (w, rng.randint(-2, 10), rng.choice([0, 0, 0, 1, 2, 3])))
+                elif k < .8:
+                    ops.append('%d@t' % w)
+                elif k < .9:
+                    ops.append('B@r%d' % rng.choice([-1, 0, 1, 2, 4]))
+                else:
+                    ops.append('B@s%d' % rng.randint(0, len(body) + 2))
+            src = io.BytesIO(body)
+            if spooled:
+                src = tempfile.TemporaryFile()
+                src.write(body)
+                src.seek(0)
+            ps = [BytesIOProxy(src, a, b) for a, b in wins]
+            res = []
+            for op in ops:
+                who, what = op.split('@')
+                try:
+                    if who == 'B':
+                        res.append(hb(src.read(int(what[1:]))) if what[0] == 'r' else str(src.seek(int(what[1:]))))
+                    elif what == 't':
+                        res.append(str(ps[int(who)].tell()))
+                    elif what == 'r':
+                        res.append(hb(ps[int(who)].read()))
+                    elif what[0] == 'r':
+                        res.append(hb(ps[int(who)].read(int(what[1:]))))
+                    else:
+                        a, wh = what[1:].split('/')
+                        res.append(str(ps[int(who)].seek(int(a), int(wh))))
+                except Exception as e:
+                    res.append('err:' + fl.exc_name(e))
+            src.close()
+            self.bump('proxies_lines')
+            out.append((f'forms proxies {hb(body)} {1 if spooled else 0} {",".join("%d:%d" % w for w in wins)} {".".join(ops)}',
+                        ','.join(res), dict(kind='proxies', body=body.hex(), wins=wins, ops=ops)))
         # F. encoder, markup -> iter_items on well-formed bodies (and with too small a budget)
         for i in range(n * 2):
             b = fl.gen_boundary(rng)
@@ -448,6 +557,16 @@ class C07(Check):
                         shown = got_b if isinstance(got_b, str) else got_b[:60].hex() + ('...' if len(got_b) > 60 else '')
                         return f'upload-read:{site}', (f'upload {k!r} read back by {how} gives {shown} ({len(got_b)} bytes), '
                                                        f'posted {len(content)} bytes {content[:60].hex()}')
+        # ... and when the handler reads several uploads of the request in interleaved blocks (they share one body)
+        ups = []
+        for k, contents in sent.items():
+            v = files.get(k)
+            for j, (u, content) in enumerate(zip(v if isinstance(v, list) else [v], contents)):
+                ups.append(('%r#%d' % (k, j), u, content))
+        if len(ups) >= 2:
+            bad = interleaved_readback(ups, len(body))
+            if bad:
+                return 'upload-read:interleaved', bad
         return None
 
     def _cases(self, rng, n):
